@@ -32,6 +32,21 @@ def run(ctx):
     total(ctx)
 
 
+_TRR = {}
+
+
+def tracer_reads_rip(ctx):
+    """does the code that records a trace entry read a register (the source address comes from RIP)?"""
+    key = id(ctx.facts)
+    if key not in _TRR:
+        facts, R = ctx.facts, ctx.roles
+        cone = cone_of(facts, list(R.tracers))
+        rd = R.reg_read[64]
+        _TRR[key] = any(blk["term"]["k"] == "call" and F.callee_name(blk["term"]) == rd
+                        for k in cone for blk in facts.bodies[k]["blocks"])
+    return _TRR[key]
+
+
 def pair(ctx):
     ck, facts, O, D, hm = ctx.check, ctx.facts, ctx.oracle, ctx.dispatch, ctx.hmodel
     impl = D.implemented()
@@ -72,6 +87,10 @@ def pair(ctx):
                     bad = bad or "records a %s, instruction is a %s" % (tr[0][1], want)
                 if U.strip(tr[0][2]) != U.strip(ripw[-1][3]):
                     bad = bad or "trace target %s differs from RIP := %s" % (A.show(U.strip(tr[0][2])), A.show(U.strip(ripw[-1][3])))
+                # the recorder takes the source address from the machine's RIP (the instruction's own address is RIP - len):
+                # it has to run while RIP still is the fall-through address, i.e. before the transfer writes RIP
+                if tracer_reads_rip(ctx) and evs.index(tr[0]) > evs.index(ripw[0]):
+                    bad = bad or "the trace entry is recorded after RIP was written: its source address is computed from the target"
                 if want == "Call":
                     if len(push) != 1 or U.strip(push[0][3][1]) != U.strip(ripw[-1][3]):
                         bad = bad or "call_stack push %s on a CALL" % ("missing" if not push else "of another value")
